@@ -91,6 +91,11 @@ def specInclude (env : Env) (cbs : SpecCbs) (disc ign : Bool) (outer : Nat) :
     match env[t]? with
     | none => specInclude env cbs disc ign outer rest true fs
     | some T =>
+      -- a name that exists but cannot be loaded is an error of its own kind, `ignore missing`
+      -- or not; only a missing name lets the next one be tried
+      match T.loadErr with
+      | some k => .error [loadErrKind t k]
+      | none =>
       if outer + INCLUDE_COST + fs.length > LIMIT then .error [.invalidOperation]
       else
         match cbs.chain [t] disc (outer + INCLUDE_COST) T.ae T.layout fs with
@@ -208,6 +213,9 @@ def specChain (env : Env) (rootCtx : Cfg) (cbs : SpecCbs) (chain : List Nat) (di
         match env[t]? with
         | none => .error [.templateNotFound]
         | some T =>
+          match T.loadErr with
+          | some k => .error [loadErrKind t k]
+          | none =>
           match specItems env rootCtx cbs (defs env (chain ++ [t])) none true true outer ae post fs1 with
           | .error e => .error e
           | .ok (o2, fs2) =>
@@ -235,6 +243,9 @@ def specRender (env : Env) (rootCtx : Cfg) (fuel : Nat) (main : Nat) : Except Er
   match env[main]? with
   | none => .error [.templateNotFound]
   | some T =>
+    match T.loadErr with
+    | some k => .error [loadErrKind main k]
+    | none =>
     match (specAll env rootCtx fuel).chain [main] false 0 T.ae T.layout [[]] with
     | .error e => .error e
     | .ok (o, _) => .ok o
